@@ -525,6 +525,7 @@ def normalise_function(fn, rel, qual):
         s = _Subst(aliases)
         fn.body = [s.visit(st) for st in fn.body]
         ast.fix_missing_locations(fn)
+    partial_alias_subst(fn)
     fn.body = [canon(st) for st in fn.body]
     ast.fix_missing_locations(fn)
     key = (rel, qual)
@@ -532,6 +533,82 @@ def normalise_function(fn, rel, qual):
     for n in ast.walk(fn):
         OWNER[id(n)] = key
     return locs, aliases
+
+
+def partial_alias_subst(fn):
+    """aliases that analyse() rejects because their region also STORES to the chain (`gy = self.dae.gy` ... `self.dae.gy += M`): the
+    reads that are evaluated before the first such store still see the aliased object, so they are replaced by the chain -- statement
+    by statement in program order, each branch of an `if` on its own, nothing inside loops/try that contain a store, nothing after."""
+    params = set(_params(fn))
+    stores = {}
+    for x in _ordered(fn):
+        if isinstance(x, ast.Name) and isinstance(x.ctx, (ast.Store, ast.Del)):
+            stores[x.id] = stores.get(x.id, 0) + 1
+
+    def has_store(node, ch):
+        for x in ast.walk(node):
+            if isinstance(x, ast.Attribute) and isinstance(x.ctx, (ast.Store, ast.Del)):
+                t = chain_text(x)
+                if t and (ch == t or ch.startswith(t + ".")):
+                    return True
+        return False
+
+    def subst(node, nm, ch):
+        return _Subst({nm: ch}).visit(node)
+
+    def until_store(stmts, nm, ch):
+        for i, st in enumerate(stmts):
+            if isinstance(st, SCOPES):
+                continue
+            if not has_store(st, ch):
+                stmts[i] = subst(st, nm, ch)
+                continue
+            if isinstance(st, ast.If):
+                st.test = subst(st.test, nm, ch)
+                until_store(st.body, nm, ch)
+                until_store(st.orelse, nm, ch)
+            elif isinstance(st, (ast.Assign, ast.AugAssign)) and not has_store(st.value, ch):
+                st.value = subst(st.value, nm, ch)      # the right-hand side is evaluated before the store
+            return True
+        return False
+
+    def blocks(node):
+        for name in ("body", "orelse", "finalbody"):
+            b = getattr(node, name, None)
+            if isinstance(b, list) and b and isinstance(b[0], ast.stmt):
+                yield b
+                for st in b:
+                    if not isinstance(st, SCOPES):
+                        yield from blocks(st)
+        for h in getattr(node, "handlers", []) or []:
+            yield from blocks(h)
+    n = 0
+    for block in list(blocks(fn)):
+        for i, st in enumerate(block):
+            if not (isinstance(st, ast.Assign) and len(st.targets) == 1 and isinstance(st.targets[0], ast.Name)):
+                continue
+            nm = st.targets[0].id
+            if nm in params or stores.get(nm, 0) != 1:
+                continue
+            ch = chain_text(st.value)
+            if ch is None or "." not in ch:
+                continue
+            root = ch.split(".")[0]
+            if (root != "self" and root not in params) or root in stores:
+                continue
+            region = block[i + 1:]
+            if not any(has_store(r_, ch) for r_ in region):
+                continue        # a full alias (handled by analyse) or not an alias at all
+            loads = [x for x in _ordered(fn) if isinstance(x, ast.Name) and x.id == nm and isinstance(x.ctx, ast.Load)]
+            inreg = {id(x) for r_ in region for x in ast.walk(r_)}
+            if block is not fn.body and not all(id(x) in inreg for x in loads):
+                continue
+            until_store(region, nm, ch)
+            block[i + 1:] = region
+            n += 1
+    if n:
+        ast.fix_missing_locations(fn)
+    return n
 
 
 class _GiveUp(Exception):
